@@ -48,7 +48,9 @@ func shippedExamples() []seedProg {
 
 func drawSeed(rt *rapid.T, examples []seedProg) seedProg {
 	pick := func(label string, n int) int { return rapid.IntRange(0, n-1).Draw(rt, label) }
-	switch rapid.IntRange(0, 9).Draw(rt, "seedkind") {
+	switch rapid.IntRange(0, 10).Draw(rt, "seedkind") {
+	case 10:
+		return seedProg{Src: genHigherOrder(rt), Kind: "higher-order"}
 	case 0:
 		g := &c05Gen{budget: rapid.IntRange(3, 16).Draw(rt, "budget"), pick: pick}
 		return seedProg{Src: g.program(rapid.IntRange(1, 3).Draw(rt, "depth"), rapid.IntRange(1, 3).Draw(rt, "top")), Kind: "control"}
